@@ -99,11 +99,7 @@ def rule_fiber(ctx, E_dm):
     fi, it = fiber_forms(ctx)
     w = w_form()
     W = w * Form.num(Fraction(1, 10 ** 12))
-    dop = None
-    dop_stmt = None
-    for f, stmt, name, val, conds, depth in it.assign_log:
-        if depth == 0 and name == "D_op":
-            dop, dop_stmt = val, stmt
+    dop, dop_stmt, _dop_name = c08.find_dop(it)
     if not isinstance(dop, Form):
         ctx.unknown("C07.3", fi, fi.node, "FIBER D_op", "dispersion operator `D_op` not found")
         return
@@ -136,12 +132,13 @@ def rule_fiber(ctx, E_dm):
     it0 = Interp(pkg, assumptions={"show_progress": False, "input.noise": "none", "gamma": 0}, param_classes={"input": "optical_signal"})
     it0.run(fi)
     first_h = None
+    hname = c08.step_variable(fi, it, dop)
     for f, stmt, name, val, conds, depth in it0.assign_log:
-        if depth == 0 and name == "h":
+        if depth == 0 and name == hname:
             first_h = (val, stmt)
             break
     if first_h is None:
-        ctx.unknown("C07.5", fi, fi.node, "FIBER first step", "no assignment to h")
+        ctx.unknown("C07.5", fi, fi.node, "FIBER first step", "no assignment to the step-size variable")
     else:
         ctx.check("C07.5", isinstance(first_h[0], Form) and first_h[0] == S("length"), fi, first_h[1], f"gamma=0: first step h = {first_h[0]!r}"[:200],
                   "single step of the full length", "with gamma == 0 the first step is not the whole length")
